@@ -93,6 +93,11 @@ ReentrantFile.busy = False
 LOADS = [0]
 
 
+def ZConfig_error():
+    import ZConfig
+    return ZConfig.ConfigurationError
+
+
 def load(text, stream=None):
     """('ok', walked-tree, section) | ('refused', kind) | ('internal', …)"""
     import ZConfig
@@ -278,6 +283,33 @@ def check_text(ctx, text, family):
         return
     if ref_out[0] == "notimpl":
         res.count("define_or_include_texts")
+        if r1[0] == "refused" and res.evaluations % 3 == 0:
+            # the parser class handed a definitions table by its caller
+            # (as the schema-based parser can be): a '%define' is refused
+            # all the same - also one that repeats what the table says
+            from ZConfig import schemaless
+            table = {}
+            for ln in text.split("\n"):
+                w = ln.split(None, 2)
+                if len(w) >= 2 and w[0] == "%define":
+                    table[w[1].lower()] = w[2].strip() if len(w) > 2 else ""
+            ctxo = schemaless.Context()
+            try:
+                schemaless.Parser(schemaless.Resource(io.StringIO(text), ""),
+                                  ctxo, table).parse(ctxo.top)
+                r2 = ("accepted",)
+            except NotImplementedError:
+                r2 = ("refused",)
+            except ZConfig_error() as e:
+                r2 = ("refused", type(e).__name__)
+            except Exception as e:  # noqa
+                r2 = ("internal", type(e).__name__, str(e)[:80])
+            res.count("parser_with_a_given_table")
+            if r2[0] != "refused":
+                res.violate("directive-silently-accepted", case,
+                            "refused", list(r2),
+                            detail="Parser(..., defines=%r): text=%r"
+                            % (table, text), vsig="given-table|%s" % r2[0])
         if r1[0] != "refused":
             res.violate("directive-silently-accepted", case,
                         "refused (%s line %d)" % (ref_out[2], ref_out[1]),
